@@ -166,6 +166,7 @@ def pipeline(chk, want_shape_tlc):
     """Generates, replays and (optionally) lets TLC judge the dumped trees.  -> dict"""
     thorough = chk.tier == "thorough"
     rng = random.Random(chk.seed)
+    vlib.scratch()          # created before any thread asks for it
     vlib.build_harness(); chk.mark("build")
     groups = []   # (tag, universe, cases)
     gstats = {}
@@ -193,12 +194,12 @@ def pipeline(chk, want_shape_tlc):
     gstats["bfs"] = dict(st, emitted=len(bfs))
     if not thorough:
         bfs = vlib.stratified_sample(bfs, class_key, 9000, rng)
-    elif len(bfs) > 60000:
-        bfs = vlib.stratified_sample(bfs, class_key, 60000, rng)
+    elif len(bfs) > 40000:
+        bfs = vlib.stratified_sample(bfs, class_key, 40000, rng)
     for i, c in enumerate(bfs):
         c["hint"] = HINTS[i % 3]
         c["store"] = "mmap" if i % 12 == 0 else "mem"
-        c["dump"] = "last" if i % (2 if thorough else 40) == 0 else "none"
+        c["dump"] = "last" if i % (4 if thorough else 40) == 0 else "none"
     groups.append(("u6", uni6, bfs))
     # --- cells that are not SplitSafe
     unib, big, st = got["big"]
